@@ -46,7 +46,7 @@ def run_script(impl, cfg, script, nslots, seed=0, preempt=False):
                 body, declared = encode_body(op['body'], w.cfg['max_buf'])
                 w.http('POST', 'transport=polling&EIO=4&sid=' + sid_of(w, op['s']), body=body,
                        declared=declared, slot=op['s'])
-            elif k in ('postsz', 'posttrunc', 'postlong', 'postdecl', 'wsframesz', 'postform'):
+            elif k in ('postsz', 'posttrunc', 'postlong', 'postdecl', 'wsframesz', 'postform', 'postnolen'):
                 k, a = size_op(w, op)
             elif k == 'upgrade':
                 w.ws_request('transport=websocket&EIO=4&sid=' + sid_of(w, op['s']), slot=op['s'])
@@ -241,6 +241,11 @@ def size_op(w, op):
         body = ('d=' + urllib.parse.quote(plain, safe='')).encode()
         w.http('POST', q + '&j=0', body=body, slot=s)
         return 'post', {'s': s, 'body': toks if k <= 16 else ['TOOMANY%d' % k]}
+    if kind == 'postnolen':
+        # declared length 0 (or no Content-Length at all) with a non-empty body: nothing may be read
+        w.http('POST', q, body=W.encode_cli_packet('m1', 'polling').encode(),
+               declared=op.get('declared', 0), slot=s)
+        return 'post', {'s': s, 'body': ['EMPTYBODY']}
     if kind == 'posttrunc':
         first = W.encode_cli_packet('m1', 'polling').encode()
         body = first + b'\x1e' + W.encode_cli_packet('m4', 'polling').encode()
